@@ -57,13 +57,18 @@ def cases(draw, ctx):
     if draw(st.integers(0, 3)) == 0:
         lines.append("env ABT_STACK_OVERFLOW_CHECK=%s" % draw(st.sampled_from(["mprotect", "mprotect_strict"])))
         lines.append("env ABT_THREAD_STACKSIZE=32768")
-    initk = draw(st.integers(1, 22)) if draw(st.integers(0, 3)) == 0 else 0
+    initk = 0
+    if draw(st.integers(0, 3)) == 0:
+        # ABT_init performs ~17 allocation events by default and several hundred with
+        # small memory-pool pages
+        initk = draw(st.integers(1, 22)) if draw(st.integers(0, 4)) else draw(st.integers(23, 500))
     lines.append("ft ctx nxs=%d caller=%d initk=%d" %
                  (draw(st.integers(1, 3)), draw(st.sampled_from([0, 0, 1, 1, 2])), initk))
     for _ in range(draw(st.integers(1, 10))):
         r = draw(st.sampled_from(ROUTINES))
-        kk = draw(st.sampled_from(["low", "low", "low", "mid", "none"]))
-        k = {"low": draw(st.integers(1, 4)), "mid": draw(st.integers(5, 16)), "none": 0}[kk]
+        kk = draw(st.sampled_from(["low", "low", "low", "low", "low", "mid", "mid", "none", "none", "high"]))
+        k = {"low": draw(st.integers(1, 4)), "mid": draw(st.integers(5, 16)), "none": 0,
+             "high": draw(st.integers(17, 260))}[kk]
         lines.append("ft call %s k=%d a=%d b=%d c=%d" %
                      (r, k, draw(st.integers(0, 7)), draw(st.integers(0, 7)), draw(st.integers(0, 3))))
     return "\n".join(lines) + "\n"
